@@ -145,8 +145,14 @@ def aggregate(prop, mod, tier, seed, results, reach, totals, lost, t0):
                                                for m, f in list(seen_m.items())[:3]))
     for mech, hits in sorted(known_hits.items()):
         e = known[mech]
-        out_lines.append(f"KNOWN-FINDING: property={prop} {e['id']} {e['what']} (hit in {len(hits)} cases, e.g. case "
+        out_lines.append(f"KNOWN-FINDING: property={prop} {e['id']} {e['what']} (hit {len(hits)} times, e.g. in case "
                          f"{case_hash(hits[0][0])})")
+    if unknown_findings:
+        mh = {}
+        for r, unk in unknown_findings:
+            for f in unk:
+                mh[f.get("mech")] = mh.get(f.get("mech"), 0) + 1
+        out_lines.append(f"unlisted mechanisms: {json.dumps(mh)}")
     min_dec = mod.MIN_DECISIVE.get(tier, 1) if hasattr(mod, "MIN_DECISIVE") else 1
     reach_summary = freach.summarise(reach, totals)
     reached_any = (len(reach) > 0) or not totals
